@@ -34,8 +34,33 @@ def _rename(e: ast.AST, mapping: dict) -> str:
     return ast.unparse(_subst(e, mapping))
 
 
+def _strip_walrus(e, env):
+    """(x := E) -> E, remembering x = E for what is evaluated afterwards."""
+    found = {}
+
+    class W(ast.NodeTransformer):
+        def visit_NamedExpr(self, n):  # noqa: N802
+            v = self.visit(n.value)
+            if isinstance(n.target, ast.Name):
+                found[n.target.id] = _subst(v, env)
+            return v
+    from .errors import clone
+    e2 = W().visit(clone(e))
+    if not found:
+        return e, env
+    return e2, dict(env, **found)
+
+
 def expr_formula(e, env=None, depth=0):  # noqa: C901, PLR0911
     env = env or {}
+    if isinstance(e, ast.BoolOp) and any(isinstance(x, ast.NamedExpr) for x in ast.walk(e)):
+        parts = []
+        for v in e.values:
+            v2, env = _strip_walrus(v, env)
+            parts.append(expr_formula(v2, env, depth))
+        return mk('and' if isinstance(e.op, ast.And) else 'or', parts)
+    if isinstance(e, ast.Compare) and any(isinstance(x, ast.NamedExpr) for x in ast.walk(e)):
+        e, env = _strip_walrus(e, env)
     if isinstance(e, ast.Constant) and isinstance(e.value, bool):
         return ('const', e.value)
     if isinstance(e, ast.UnaryOp) and isinstance(e.op, ast.Not):
@@ -55,10 +80,12 @@ def expr_formula(e, env=None, depth=0):  # noqa: C901, PLR0911
             c = expr_formula(cond, env2, depth + 1)
             body = mk('or', [neg(c), body]) if e.func.id == 'all' else mk('and', [c, body])
         return ('forall' if e.func.id == 'all' else 'exists', _rename(gen.iter, env), body)
-    if isinstance(e, ast.Compare) and len(e.ops) == 1 and isinstance(e.ops[0], (ast.IsNot, ast.NotEq, ast.NotIn)):
-        pos = ast.Compare(left=e.left, ops=[{ast.IsNot: ast.Is, ast.NotEq: ast.Eq, ast.NotIn: ast.In}[type(e.ops[0])]()],
-                          comparators=e.comparators)
-        return neg(('atom', _rename(pos, env)))
+    if isinstance(e, ast.Compare) and len(e.ops) == 1:
+        # canonical atoms (same scheme as cfg.canon_compare): !=, is not, not in are negations; operands of == sorted;
+        # order comparisons brought to < / <= with sorted operands
+        from .cfg import canon_compare
+        t, negated = canon_compare(_subst(e, env))
+        return neg(('atom', t)) if negated else ('atom', t)
     return ('atom', _rename(e, env))
 
 
